@@ -564,6 +564,10 @@ func readCorpus(path string) []Recipe {
 
 func main() {
 	o := ParseFlags()
+	if o.Out != "" {
+		os.MkdirAll(o.Out, 0755)
+		workDir = o.Out
+	}
 	if strings.HasPrefix(o.Extra, "constchild:") {
 		constChild(o.Extra[len("constchild:"):])
 		return
@@ -577,9 +581,7 @@ func main() {
 		return
 	}
 	rng := NewRng(o.Seed)
-	w := NewCaseWriter(o.Out, "cases", header, "mism", 60)
-	w.Type = "case"
-	w.Rule = "a case is non-trivial when the writer and the reader both succeeded on a document of more than 4 bytes (round trips) or the malformed document passed the decoding layer and reached the reader's own validation; distinct = distinct (kind, element type, document length, outcome kinds)"
+	ws := newWriters(o.Out, "")
 	var recipes []Recipe
 	if o.Extra != "" {
 		recipes = append(recipes, readCorpus(o.Extra)...)
@@ -588,6 +590,15 @@ func main() {
 	for len(recipes) < ncorpus+o.N {
 		recipes = append(recipes, genRecipe(rng))
 	}
+	// the table and configuration parts have their own streams (the JSON stream of round 1 is unchanged)
+	trng := NewRng(o.Seed ^ 0x7ab1e)
+	for i := 0; i < o.N/2; i++ {
+		recipes = append(recipes, genTableRecipe(trng))
+	}
+	crng := NewRng(o.Seed ^ 0xc0f19)
+	for i := 0; i < o.N/8; i++ {
+		recipes = append(recipes, genCfgRecipe(crng))
+	}
 	var orc []OracleRec
 	for i, rc := range recipes {
 		if os.Getenv("C18_TRACE") != "" {
@@ -595,6 +606,10 @@ func main() {
 			fmt.Fprintln(os.Stderr, i, string(b))
 		}
 		res := runRecipe(rc)
+		if res.Coq == "" {
+			continue
+		}
+		w := ws.pick(rc.Kind)
 		w.Add(res.Coq, rc, res.Key, res.Nontriv)
 		for _, h := range res.Hist {
 			w.Count(h)
@@ -604,11 +619,41 @@ func main() {
 			w.Count("oracle:" + f.Site + ":" + f.Kind)
 		}
 	}
-	w.Extra["corpus_cases"] = ncorpus
-	if err := w.Flush(); err != nil {
-		Die("flush: %v", err)
-	}
+	ws.json.Extra["corpus_cases"] = ncorpus
+	ws.flush()
 	writeOracle(filepath.Join(o.Out, "oracle.jsonl"), orc)
+}
+
+// one case writer per Coq case type: JSON formats (Corr.v), tables (TableCorr.v), configurations (ConfigCorr.v)
+type writers struct{ json, table, cfg *CaseWriter }
+
+func newWriters(dir, prefix string) *writers {
+	w := NewCaseWriter(dir, prefix+"cases", header, "mism", 60)
+	w.Type = "case"
+	w.Rule = "a case is non-trivial when the writer and the reader both succeeded on a document of more than 4 bytes (round trips) or the malformed document passed the decoding layer and reached the reader's own validation; distinct = distinct (kind, element type, document length, outcome kinds)"
+	t := NewCaseWriter(dir, prefix+"tcases", theader, "tmism", 60)
+	t.Type = "tcase"
+	t.Rule = "table cases: non-trivial when Export and Import both succeeded on a file of more than 2 bytes (round trips), the malformed file has at least one line for the reader, or the literal is not exactly representable in binary64; distinct = distinct (kind, element type, mutation, file length, outcome kinds)"
+	c := NewCaseWriter(dir, prefix+"ccases", cheader, "cmism", 60)
+	c.Type = "ccase"
+	c.Rule = "configuration cases: non-trivial when ExportConfig -> JSON -> ImportConfig succeeded on a nested or multi-parameter distribution, or the malformed configuration reached ImportConfig; distinct = distinct (family path, outcome kinds)"
+	return &writers{w, t, c}
+}
+func (ws *writers) pick(kind string) *CaseWriter {
+	if _, _, ok := tableKind(kind); ok {
+		return ws.table
+	}
+	if strings.HasPrefix(kind, "cfg") {
+		return ws.cfg
+	}
+	return ws.json
+}
+func (ws *writers) flush() {
+	for _, w := range []*CaseWriter{ws.json, ws.table, ws.cfg} {
+		if err := w.Flush(); err != nil {
+			Die("flush: %v", err)
+		}
+	}
 }
 
 func writeOracle(path string, orc []OracleRec) {
@@ -637,12 +682,19 @@ func hunt(o Opts) {
 		recipes = append(recipes, in.Cases...)
 	}
 	for i := 0; i < o.N; i++ {
-		recipes = append(recipes, genRecipe(rng))
+		switch i % 4 {
+		case 1, 3:
+			recipes = append(recipes, genTableRecipe(rng))
+		case 2:
+			recipes = append(recipes, genCfgRecipe(rng))
+		default:
+			recipes = append(recipes, genRecipe(rng))
+		}
 	}
 	seen := map[string]bool{}
 	var out []OracleRec
 	for i, rc := range recipes {
-		if rc.Kind == "const" {
+		if rc.Kind == "const" || rc.Kind == "t-lit" {
 			continue
 		}
 		for _, f := range runRecipe(rc).Failures {
@@ -684,12 +736,12 @@ func replay(o Opts) {
 		Die("replay file holds no recipe")
 	}
 	res := runRecipe(*rc)
-	w := NewCaseWriter(o.Out, "replay", header, "mism", 10)
-	w.Type = "case"
-	w.Add(res.Coq, rc, res.Key, res.Nontriv)
-	if err := w.Flush(); err != nil {
-		Die("%v", err)
+	for _, old := range []string{"replay_0.v", "replay_tcases_0.v", "replay_ccases_0.v", "replay_cases_0.v"} {
+		os.Remove(filepath.Join(o.Out, old))
 	}
+	ws := newWriters(o.Out, "replay_")
+	ws.pick(rc.Kind).Add(res.Coq, rc, res.Key, res.Nontriv)
+	ws.flush()
 	var orc []OracleRec
 	for _, f := range res.Failures {
 		orc = append(orc, OracleRec{Recipe: *rc, Failure: f})
